@@ -24,6 +24,7 @@ structure S where
   model : Cron := {}
   lastOp : String := ""
   lastRejected : Bool := false
+  lastAdded : List String := []           -- entries added by the edit that was just accepted (until the next snapshot)
   prev : Snap := {}                       -- implementation's previous snapshot
   stored : List String := []              -- names of entries the implementation accepted and has not removed
   started : Bool := false
@@ -121,8 +122,32 @@ def stepLine (s : S) (req resp : List String) : S × List String :=
             if bad t.param || bad t.meta_ then
               some s!"MON C19 a pending cron task of {t.workId} carries what the client scribbled into a map it had passed in or received"
             else none
-          ({ s with prev := snap, lastRejected := false, nontrivial := s.nontrivial || !tasks.isEmpty },
-            d ++ c16 ++ c15 ++ c15b ++ c17 ++ c19)
+          -- C16: every entry added by an accepted edit starts at ITS first occurrence: the pending task that carries its
+          -- identity was made by this edit (created now) from the entry's own first occurrence — in particular when an
+          -- entry with the same identity was removed by the same edit, whose pending occurrence must be gone
+          let taskKey (t : Task) : SerKey := { workId := t.workId, priority := t.priority, param := t.param, meta_ := t.meta_ }
+          let c16b := s.lastAdded.filterMap fun nm =>
+            match m.ents.find? (·.name == nm) with
+            | none => none
+            | some e =>
+              let key := serKey { e.base with meta_ := some (SMap.insert (e.base.meta_.getD []) metaKeyScheduleHash e.hash) }
+              match tasks.filter (fun t => taskKey t == key) with
+              | [t] =>
+                let untouched := !(e.base.meta_.getD []).any (fun kv => kv.1 == Mut.labelNow || kv.1 == Mut.labelMin || kv.1 == Mut.labelMax)
+                if t.createdAt != normalize now then
+                  some s!"MON C16 entry {nm} was added by an accepted edit at {now}, but the pending occurrence with its identity was created at {t.createdAt} (an older entry's occurrence survived the edit)"
+                else
+                  -- the occurrence the Entry object stood at before the edit (an Entry that was stored before and is
+                  -- added again continues from its own cursor) is the one that must be pending now
+                  match s.prev.cursors.find? (·.1 == nm) with
+                  | some (_, some pc) =>
+                    if untouched && t.scheduledAt != normalize pc then
+                      some s!"MON C16 entry {nm} was added by an accepted edit; its pending occurrence is at {t.scheduledAt}, the entry stood at {pc}"
+                    else none
+                  | _ => none
+              | ts => some s!"MON C16 entry {nm} was added by an accepted edit, but {ts.length} pending occurrences carry its identity"
+          ({ s with prev := snap, lastRejected := false, lastAdded := [], nontrivial := s.nontrivial || !tasks.isEmpty },
+            d ++ c16 ++ c16b ++ c15 ++ c15b ++ c17 ++ c19)
       | _, _, _, _ => (s, ["DIFF parse bad cs line"])
     | _ => (s, ["DIFF parse bad cs line"])
   | op :: rest =>
@@ -158,7 +183,9 @@ def stepLine (s : S) (req resp : List String) : S × List String :=
     | "edit", [add, rem] =>
       let (m, ok) := s.model.editTask (names add) (names rem)
       let d := if (if ok then "ok" else "err") == res then [] else [s!"DIFF cron EditTask model={ok} impl={res}"]
-      let stored := if res == "ok" then (s.stored.filter (fun n => !(names rem).contains n)) ++ names add else s.stored
+      -- an Entry object that is already stored and is offered again is KEPT, not added (EditTask diffs by object identity)
+      let newly := (names add).eraseDups.filter (fun n => !s.stored.contains n)
+      let stored := if res == "ok" then (s.stored.filter (fun n => !(names rem).contains n)) ++ newly else s.stored
       -- C16: an accepted edit never leaves two stored entries with one identity
       let identOf (n : String) : Option SerKey := (s.model.ent n).map (fun e =>
         serKey { e.base with meta_ := some (SMap.insert (e.base.meta_.getD []) metaKeyScheduleHash e.hash) })
@@ -166,7 +193,8 @@ def stepLine (s : S) (req resp : List String) : S × List String :=
       let dupMon := if res == "ok" && ids.eraseDups.length != ids.length then
         [s!"MON C16 an edit adding {names add} and removing {names rem} was accepted although two stored entries now share one identity"]
         else []
-      ({ s with model := m, stored := stored, lastRejected := res != "ok" }, d ++ dupMon)
+      ({ s with model := m, stored := stored, lastRejected := res != "ok",
+                lastAdded := if res == "ok" then newly else [] }, d ++ dupMon)
     | "start", [] => ({ s with model := s.model.startTimer, started := true }, [])
     | "stop", [] => ({ s with model := s.model.stopTimer, started := false }, [])
     | "adv", [t] =>
